@@ -261,3 +261,31 @@ impl Rt for TcpOpt {
         "EndOfList, NoOperation, SackPermitted, MaxSegmentSize {0,1,0x8000,0xffff}, WindowScale {0,14,15,255}, SackRange with 1, 2, 3 blocks, TimeStamp (tsval, tsecr in {0,1,2^31,2^32-1}), Unknown{kind {6,7,30,254,255} x data length {0,1,2,38}}"
     }
 }
+
+/// Values outside the enumerated domain (see `super::probe`).
+pub fn observations() -> Vec<serde_json::Value> {
+    let c = addr_pairs(Tier::Quick)[0];
+    let base = TcpRepr {
+        src_port: 1,
+        dst_port: 80,
+        control: TcpControl::Syn,
+        seq_number: TcpSeqNumber(0),
+        ack_number: Some(TcpSeqNumber(1)),
+        window_len: 1,
+        window_scale: None,
+        max_seg_size: None,
+        sack_permitted: true,
+        sack_ranges: SACKS[1],
+        timestamp: None,
+        payload: pat(0),
+    };
+    vec![
+        super::probe::<Tcp>(&base, &c),
+        super::probe::<Tcp>(&TcpRepr { sack_permitted: false, ack_number: None, ..base }, &c),
+        super::probe::<Tcp>(&TcpRepr { sack_permitted: false, sack_ranges: [None, Some((1, 2)), None], ..base }, &c),
+        super::probe::<Tcp>(&TcpRepr { sack_permitted: false, sack_ranges: [None; 3], window_scale: Some(15), ..base }, &c),
+        super::probe::<Tcp>(&TcpRepr { sack_permitted: false, sack_ranges: SACKS[2], timestamp: Some(TcpTimestampRepr::new(1, 2)), max_seg_size: Some(536), window_scale: Some(1), ..base }, &c),
+        super::probe::<Udp>(&(UdpRepr { src_port: 1, dst_port: 0 }, pat(0)), &c),
+        super::probe::<TcpOpt>(&TcpOption::SackRange([None; 3]), &()),
+    ]
+}
